@@ -408,15 +408,15 @@ fn run_case(case: &Value, args: &Args, rng: &mut Rng) -> Result<(Value, u64), Fa
             Err(p) => return Err(fail("C01:twin-panic", format!("history starting with a multi-command init segment panicked: {p}"))),
         };
         res_c.map_err(|e| fail("C01:twin-commit-error", format!("history starting with a multi-command init segment failed: {}", err_class(&e))))?;
-        let vc = c.view().map_err(|e| fail("tool:view", e))?;
-        if vc != after {
-            return Err(fail("C01:diverge", format!("a replica whose graph was created by an action publishing several commands disagrees: A {} C {}", view_json(&u, &after), view_json(&u, &vc))));
-        }
         if args.opt_bool("index") {
             match vrt::catch_any(|| check_index(&mut c, &u, rng)) {
                 Ok(r) => r?,
                 Err(p) => return Err(fail("C11:panic", format!("lookup/ancestry query panicked: {p}"))),
             }
+        }
+        let vc = c.view().map_err(|e| fail("tool:view", e))?;
+        if vc != after {
+            return Err(fail("C01:diverge", format!("a replica whose graph was created by an action publishing several commands disagrees: A {} C {}", view_json(&u, &after), view_json(&u, &vc))));
         }
     }
 
